@@ -201,7 +201,7 @@ def run(R):
     R.assumptions = ['"rejected" = any Exception subclass propagates out of Cell.from_boc (the library has no error taxonomy)',
                      'stored hashes are only generated for level masks 0,1,3,7 (TON writer/reader disagree on gapped masks)']
     nb = 0
-    for name, r in dags.classes(rng, R.tier, R.shard, R.nshards, bulk=400 if quick else 20000):
+    for name, r in dags.classes(rng, R.tier, R.shard, R.nshards, bulk=1200 if quick else 20000):
         cells = gen.all_cells(r)
         W = {'class': name, 'cells': len(cells)}
         # 1..4 roots: the DAG root plus random inner cells / repeats / another small DAG
@@ -215,7 +215,7 @@ def run(R):
                 roots[0] = r
             b, desc = positive(R, B, rng, roots, W)
             R.case(mon.fp(b), sample=desc if R.evaluations < 4 else None)
-        if len(cells) <= 12 and nb < (6 if quick else 60):
+        if len(cells) <= 12 and nb < (16 if quick else 60):
             negative(R, B, rng, [r], W)
             nb += 1
     # deterministic small bases so that the negative half never depends on what the random classes produced
